@@ -13,6 +13,14 @@ DOM = [["i", 0], ["i", 1], ["b", True], ["b", False], ["f", "1/1"], ["i", 2], ["
        ["t", [1]]]
 
 
+class SubInput(edzed.Input):
+    """a trivial subclass, as an application would write it to add a method or a default"""
+
+
+class SubInputExp(edzed.InputExp):
+    """ditto"""
+
+
 def mk_validators(t):
     kw = {}
     if t['allowed'] is not None:
@@ -78,22 +86,25 @@ class C17(common.Spec):
         kw = mk_validators(c['tables'])
         if c['initdef'] != ["undef"]:
             kw['initdef'] = dec(c['initdef'])
+        # an application's own subclass of the block is still an Input / InputExp
+        cls_in, cls_exp = (SubInput, SubInputExp) if c.get('subclass') else (edzed.Input, edzed.InputExp)
         if c['kind'] == 'input':
             if c['restored'] is not None:
                 kw['persistent'] = True
-            return edzed.Input(f"b{n}", **kw)
+            return cls_in(f"b{n}", **kw)
         if c.get('restored') is not None:
             kw['persistent'] = True
-        return edzed.InputExp(f"b{n}", duration=100000, expired=dec(c['expired']), **kw)
+        return cls_exp(f"b{n}", duration=100000, expired=dec(c['expired']), **kw)
 
     def _batch(self, cases):
         obs = [None] * len(cases)
         storage = {'edzed-stop-time': 1.0}
         for n, c in enumerate(cases):
             if c['kind'] == 'input' and c['restored'] is not None:
-                storage[f"<Input 'b{n}'>"] = dec(c['restored'])
+                storage[f"<{'SubInput' if c.get('subclass') else 'Input'} 'b{n}'>"] = dec(c['restored'])
             if c['kind'] == 'inputexp' and c.get('restored') is not None:
-                storage[f"<InputExp 'b{n}'>"] = ('valid', None, {'input': dec(c['restored'])})
+                storage[f"<{'SubInputExp' if c.get('subclass') else 'InputExp'} 'b{n}'>"] = (
+                    'valid', None, {'input': dec(c['restored'])})
 
         def build():
             blocks = [self._construct(n, c) for n, c in enumerate(cases)]
@@ -230,6 +241,9 @@ def gen_cases(run):
                               restored=None))
             cases.append(dict(kind='inputexp', tables=t, initdef=["i", 1], expired=["i", 1], puts=[],
                               restored=v))
+    for c in cases:
+        if rng.random() < 0.25:
+            c['subclass'] = True
     return cases
 
 
